@@ -122,23 +122,22 @@ Definition ccustom_property (s : str) : ccres :=
   end.
 
 (* consume_number: number of characters of  -? digits ( . digits )?  at the head
-   of [s]; 0 = not a number *)
-Definition consume_number (s : str) : nat :=
-  let neg := cpeek_is c_dash s in
-  let s1 := if neg then tl s else s in
+   of [s]; 0 = not a number.  [number_body] is the part after the optional dash. *)
+Definition number_body (s1 : str) : nat :=
   let nd := cspan is_number s1 in
   let s2 := skipn nd s1 in
-  let used :=
-    if cpeek_is c_dot s2 then
-      let nf := cspan is_number (tl s2) in
-      match nd, nf with
-      | O, O => nd                           (* lone dot: back to prev_pos *)
-      | _, _ => (nd + 1 + nf)%nat
-      end
-    else nd in
-  match used with
+  if cpeek_is c_dot s2 then
+    let nf := cspan is_number (tl s2) in
+    match nd, nf with
+    | O, O => O                              (* lone dot: back to prev_pos *)
+    | _, _ => (nd + (1 + nf))%nat
+    end
+  else nd.
+Definition consume_number (s : str) : nat :=
+  let neg := cpeek_is c_dash s in
+  match number_body (if neg then tl s else s) with
   | O => O                                   (* consumed dash only: bail out *)
-  | _ => ((if neg then 1 else 0) + used)%nat
+  | used => ((if neg then 1 else 0) + used)%nat
   end.
 
 (* number_value: number with optional unit ('%' or an alpha word) *)
